@@ -99,7 +99,49 @@ class StmtMixin:
                         nxt.extend(self.assign(tgt, v, s2, fr, None))
                 res = nxt
             out.extend(res)
-        return out
+        return self.apply_hints(n, out, fr)
+
+    def apply_hints(self, n, outcomes: List, fr: Frame) -> List:
+        """Sidecar cut assertions after an assignment to a local name (see spec.hint)."""
+        if fr.fn is None or not S.HINTS:
+            return outcomes
+        tgts = n.targets if isinstance(n, ast.Assign) else [n.target]
+        names = [t.id for t in tgts if isinstance(t, ast.Name)]
+        if not names:
+            return outcomes
+        res = []
+        for kind, s, v in outcomes:
+            if kind != "normal":
+                res.append((kind, s, v))
+                continue
+            for name in names:
+                iv = S.HINTS.get((fr.fn.qualname, name, self.assign_ordinal(fr, n, name)))
+                if iv is None:
+                    continue
+                args = {k: x for k, x in s.env.items() if not k.startswith("$decl:")}
+                ss = S.SpecState(self, args, s.heap, s.heap)
+                s = s.copy()
+                for lbl, f in iv.clauses:
+                    g = f(ss)
+                    self.vc(s, g, f"hint.{name}", lbl, n, fr)
+                    s.assume(g)
+            res.append((kind, s, v))
+        return res
+
+    def assign_ordinal(self, fr: Frame, node, name: str) -> int:
+        cache = getattr(self, "_assign_ordinals", None)
+        if cache is None:
+            cache = self._assign_ordinals = {}
+        key = (id(fr.fn.node), name)
+        if key not in cache:
+            nodes = []
+            for x in ast.walk(fr.fn.node):
+                tg = x.targets if isinstance(x, ast.Assign) else ([x.target] if isinstance(x, ast.AnnAssign) and x.value is not None else [])
+                if any(isinstance(t, ast.Name) and t.id == name for t in tg):
+                    nodes.append(x)
+            nodes.sort(key=lambda x: (x.lineno, x.col_offset))
+            cache[key] = {id(x): i for i, x in enumerate(nodes)}
+        return cache[key].get(id(node), -1)
 
     def s_AnnAssign(self, n, st, fr):
         ty = self.type_of_annotation(n.annotation, fr.module, fr.cls)
@@ -120,7 +162,7 @@ class StmtMixin:
                 out.append((k, s, v))
             else:
                 out.extend(self.assign(n.target, v, s.copy(), fr, ty))
-        return out
+        return self.apply_hints(n, out, fr)
 
     def s_AugAssign(self, n, st, fr):
         load = self._as_load(n.target)
@@ -210,7 +252,7 @@ class StmtMixin:
                     self.vc(s, z3.And(i.t >= 0, i.t < n), "safety", "index_in_range", tgt, fr)
                     arr = self.list_arr(s.heap, o)
                     vv = self.coerce(v, o.ty.args[0])
-                    s.heap[("lel", V.sort_key(V.sort_of(o.ty.args[0])))] = z3.Store(arr, o.t, z3.Store(z3.Select(arr, o.t), i.t, vv.t))
+                    s.heap[("lel", V.sort_key(V.sort_of(o.ty.args[0])))] = z3.Store(arr, o.t, z3.Store(V.sel(arr, o.t), i.t, vv.t))
                     return [("normal", s, None)]
                 if o.ty.kind in ("ext", "any"):
                     return self.ext_subscript_store(o, i, v, s, fr, tgt)
@@ -648,6 +690,9 @@ class StmtMixin:
         n = self.coll_len(st.heap, d)
         has = self.dict_has(st.heap, d, Val(kty, k))
         st.assume(z3.ForAll([k], z3.Implies(has, z3.And(0 <= pos(d.t, k), pos(d.t, k) < n, order(d.t, pos(d.t, k)) == k))))
+        j = z3.Int("di_j")
+        okey = Val(kty, order(d.t, j))
+        st.assume(z3.ForAll([j], z3.Implies(z3.And(0 <= j, j < n), z3.And(self.dict_has(st.heap, d, okey), pos(d.t, order(d.t, j)) == j))))
 
     def dict_iter_element(self, s: State, it: Val, i) -> Val:
         d = it.items[0]
@@ -772,7 +817,7 @@ class StmtMixin:
                             for i in idx:
                                 if not any(i.eq(x) for x in cur):
                                     cur.append(i)
-            pointwise = {hk: v for hk, v in cand.items() if v is not None and hk in st.heap and st.heap[hk].sort().domain() == V.Ref}
+            pointwise = {hk: v for hk, v in cand.items() if v is not None and hk in st.heap and z3.is_array(st.heap[hk]) and st.heap[hk].sort().domain() == V.Ref}
         except OutOfSubset:
             pointwise = {}
         finally:
@@ -784,7 +829,10 @@ class StmtMixin:
         for hk, idxs in pointwise.items():
             arr = st.heap[hk]
             for i in idxs:
-                arr = z3.Store(arr, i, z3.Const(V.fresh_name("Hp_" + "_".join(str(x) for x in (hk if isinstance(hk, tuple) else (hk,)))), arr.sort().range()))
+                slot = z3.Const(V.fresh_name("Hp_" + "_".join(str(x) for x in (hk if isinstance(hk, tuple) else (hk,)))), arr.sort().range())
+                if hk in (("llen",), ("dlen",)):
+                    h.assume(slot >= 0)           # type invariant: collection lengths are non-negative
+                arr = z3.Store(arr, i, slot)
             h.heap[hk] = arr
         # names assigned in the body but unbound at entry stay unbound (python would raise UnboundLocalError after zero iterations)
         for lbl, g in inv_clauses(h):
@@ -853,8 +901,7 @@ class StmtMixin:
     def loop_frame_facts(self, entry: State, h: State, modified) -> None:
         """Allocation only grows across iterations."""
         if ("alloc",) in modified and ("alloc",) in entry.heap:
-            r = z3.Const("fr_r", V.Ref)
-            h.assume(z3.ForAll([r], z3.Implies(z3.Select(entry.heap[("alloc",)], r), z3.Select(h.heap[("alloc",)], r))))
+            h.assume(h.heap[("alloc",)] >= entry.heap[("alloc",)])
 
     def havoc_val(self, old: Val, name: str) -> Val:
         if old.ty.kind in ("tuple",):
